@@ -93,20 +93,15 @@ theorem dropWhile_eq_self_of_head {α} (p : α → Bool) (l : List α)
     have := h a rfl
     rw [List.dropWhile_cons_of_neg (by simp [this])]
 
-/-- on the collapsed string `str.strip()` is the identity, provided the string has no U+00A0 at its
-ends — which an accepted hexBinary cannot have (`encode('ascii')` fails on it) -/
-theorem pyStrip_collapse (s : List Char)
-    (h160 : ∀ c ∈ Lex.collapse s, c.toNat = 160 → False) : Lex.pyStrip (Lex.collapse s) = Lex.collapse s := by
+/-- on the collapsed string `value.strip(' \\t\\n\\r')` is the identity -/
+theorem pyStrip_collapse (s : List Char) : Lex.pyStrip (Lex.collapse s) = Lex.collapse s := by
   have hends := stripSp_ends (Lex.subWhite false s)
   have hchar : ∀ c ∈ Lex.collapse s, c ≠ ' ' → Lex.isPyStripWhite c = false := by
     intro c hc hne
     unfold Lex.isPyStripWhite
     rcases collapse_no_white s c hc with h | h
     · exact absurd h hne
-    · rw [h]
-      have : (c.toNat == 160) = false := by
-        rw [beq_eq_false_iff_ne]; exact fun e => h160 c hc e
-      simp [this]
+    · exact h
   unfold Lex.pyStrip
   have h1 : (Lex.collapse s).dropWhile Lex.isPyStripWhite = Lex.collapse s := by
     apply dropWhile_eq_self_of_head
@@ -156,7 +151,7 @@ theorem hexCtor_eq (s : List Char) :
       simpa using (hexDigit_ascii_nonspace c (hall c hc)).2.1
     have hasc : ((Lex.collapse s).all Lex.isAscii) = true := by
       rw [List.all_eq_true]; intro c hc; exact (hexDigit_ascii_nonspace c (hall c hc)).1
-    rw [pyStrip_collapse s h160, matchHex_eq _ (collapse_no_nl s), hl, hfil, hasc]
+    rw [pyStrip_collapse s, matchHex_eq _ (collapse_no_nl s), hl, hfil, hasc]
     rfl
   · simp only [hl, Bool.false_eq_true, ↓reduceIte]
     by_cases hm : Lex.matchHex (Lex.pyStrip (Lex.collapse s)) = true
@@ -172,7 +167,7 @@ theorem hexCtor_eq (s : List Char) :
           have := hasc c hcf
           simp only [Lex.isAscii, decide_eq_true_eq] at this
           omega
-        rw [pyStrip_collapse s h160, matchHex_eq _ (collapse_no_nl s)] at hm
+        rw [pyStrip_collapse s, matchHex_eq _ (collapse_no_nl s)] at hm
         exact hl hm
       · simp [hasc]
     · simp [hm]
@@ -287,6 +282,6 @@ theorem b64Ctor_eq (s : List Char) :
       if XSD.base64Lex (Lex.collapse s) then .ok ((Lex.collapse s).filter (· != ' ')) else .error .value := by
   unfold Lex.b64Ctor Lex.b64IsValid
   simp only
-  rw [matchB64_eq, ← base64Lex_eq]
+  rw [matchB64_eq, filter_collapse_collapse, ← base64Lex_eq]
 
 end EPV.LexLemmas
